@@ -12,8 +12,10 @@ Decides the self-consistency of the hand-over bookkeeping tables and of the copy
     thread-local buffers are indexed by the direction returned by the traversal;
  D5 the estimator fields accumulated by a packet are the fields folded copy -> original and the fields reset,
     over their full extents, and every copy is folded exactly once.
-Not decided: numeric equality of estimators between layouts; the neighbour wiring of the subgrids (runtime
-arithmetic; assumption A1).
+ D7 containers that grow together (the copies and the copy -> original map) are reset together;
+ D8 the neighbour table create_subgrid gives a subgrid is the geometric one (assumption A1), by finite case evaluation of
+    its integer code for 1, 2, 3 subgrids per axis, every periodicity and every subgrid (c03_wiring.py).
+Not decided: numeric equality of estimators between layouts.
 """
 import sympy as sp
 
